@@ -43,6 +43,7 @@ type Ctx interface {
 
 func NewExecCtx(errs ZogIssues, fmter IssueFmtFunc) *ExecCtx {
 	c := ExecCtxPool.Get().(*ExecCtx)
+	VerifEmit("get", "execctx", "", c)
 	c.Fmter = fmter
 	c.Errors = errs
 	return c
@@ -79,6 +80,7 @@ func (c *ExecCtx) AddIssue(e *ZogIssue) {
 		c.Fmter(e, c)
 	}
 	c.Errors.Add(e.Path, e)
+	VerifEmit("issue", e.Code, e.Path, e)
 }
 
 func (c *ExecCtx) Issue() *ZogIssue {
@@ -101,6 +103,7 @@ func (c *ExecCtx) FmtErr(e *ZogIssue) {
 
 func (c *ExecCtx) NewSchemaCtx(val any, destPtr any, path *PathBuilder, dtype zconst.ZogType) *SchemaCtx {
 	c2 := SchemaCtxPool.Get().(*SchemaCtx)
+	VerifEmit("get", "schemactx", "", c2)
 	c2.ExecCtx = c
 	c2.Data = val
 	c2.ValPtr = destPtr
@@ -114,6 +117,7 @@ func (c *ExecCtx) NewSchemaCtx(val any, destPtr any, path *PathBuilder, dtype zc
 
 func (c *ExecCtx) NewValidateSchemaCtx(valPtr any, path *PathBuilder, dtype zconst.ZogType) *SchemaCtx {
 	c2 := SchemaCtxPool.Get().(*SchemaCtx)
+	VerifEmit("get", "schemactx", "", c2)
 	c2.ExecCtx = c
 	c2.Data = nil
 	c2.ValPtr = valPtr
@@ -126,6 +130,7 @@ func (c *ExecCtx) NewValidateSchemaCtx(valPtr any, path *PathBuilder, dtype zcon
 }
 
 func (c *ExecCtx) Free() {
+	VerifEmit("put", "execctx", "", c)
 	ExecCtxPool.Put(c)
 }
 
@@ -144,6 +149,7 @@ type SchemaCtx struct {
 func (c *SchemaCtx) AddIssue(e *ZogIssue) {
 	if c.CanCatch {
 		c.Exit = true
+		VerifEmit("swallow", e.Code, e.Path, e)
 		FreeIssue(e)
 		return
 	}
@@ -165,6 +171,7 @@ func (c *SchemaCtx) Issue() *ZogIssue {
 // Please don't depend on this method it may change
 func (c *SchemaCtx) IssueFromTest(test *Test, val any) *ZogIssue {
 	e := ZogIssuePool.Get().(*ZogIssue)
+	VerifEmit("get", "issue", "", e)
 	e.Code = test.IssueCode
 	e.Path = c.Path.String()
 	e.Err = nil
@@ -184,6 +191,7 @@ func (c *SchemaCtx) IssueFromTest(test *Test, val any) *ZogIssue {
 // Please don't depend on this method it may change
 func (c *SchemaCtx) IssueFromCoerce(err error) *ZogIssue {
 	e := ZogIssuePool.Get().(*ZogIssue)
+	VerifEmit("get", "issue", "", e)
 	e.Code = zconst.IssueCodeCoerce
 	e.Path = c.Path.String()
 	e.Message = ""
@@ -205,6 +213,7 @@ func (c *SchemaCtx) IssueFromUnknownError(err error) *ZogIssue {
 
 // Frees the context to be reused
 func (c *SchemaCtx) Free() {
+	VerifEmit("put", "schemactx", "", c)
 	SchemaCtxPool.Put(c)
 }
 
